@@ -43,6 +43,19 @@ def run(tier, seed):
                     d = res.coverage["clauses_broken_for_other_properties"][p]
                     d[c] = d.get(c, 0) + 1
     res.merge_counts(states=states, transitions=states, traces_validated_against_impl=len(traces), evaluations=nvals, distinct_nontrivial=nvals)
+    # MountedStores used concurrently by uberjob's worker threads (controlled schedules)
+    import random as _random
+
+    rng = _random.Random(f"c12m-{seed}")
+    margs = [(seed * 7919 + i, rng.choice([2, 3]), rng.choice([{"kind": "random", "p": 0.2}, {"kind": "relyield", "q": 0.3}, {"kind": "pct", "depth": 3, "est_steps": 1500}]))
+             for i in range(160 if tier == "quick" else 5000)]
+    mouts = common.pmap(V.mounted_concurrent, margs)
+    for a, o in zip(margs, mouts):
+        for f in o["fails"]:
+            res.add_violation(f"C12:mounted_concurrent:{f['what']}", f"MountedStores used concurrently ({a[1]} stores): {f['what']}: {f['detail']}", {"mounted": True, "arg": list(a), "failure": f})
+    res.merge_counts(evaluations=len(margs))
+    res.coverage["mounted_concurrent_executions"] = len(margs)
+    res.coverage["mounted_concurrent_with_preemption"] = sum(1 for o in mouts if o["preemptions"] > 0)
     res.coverage["store_configurations"] = len(cfgs)
     res.coverage["traces_accepted"] = len(traces) - len(rej)
     res.coverage["rule"] = ("for each store class x path kind x encoding (and each store behind a MountedStore): write / get_modified_time / read over the value "
@@ -54,6 +67,19 @@ def run(tier, seed):
 
 
 def replay(w):
+    wit = w["witness"]
+    if wit.get("mounted"):
+        a = wit["arg"]
+        o = V.mounted_concurrent((a[0], a[1], a[2]))
+        print(o["fails"])
+        if o["fails"]:
+            print(f"VIOLATION property={PROP} replay=(reproduced)")
+            return 1
+        print("not reproduced")
+        return 0
+    if "failure" in wit:
+        print("re-run ./check C12: the value driver re-creates the failing value from the seed")
+        return 0
     return F.replay(PROP, w)
 
 
